@@ -65,7 +65,9 @@ def lie_result(c):
     e["res"]["kind"] = "Err"; e["res"]["err"] = "CavityFilling"
 demo("Trace_API: report Err for a committed insert", "Trace_API", case, lie_result)
 def drop_event(c):
-    i = max(i for i, x in enumerate(c) if x["ev"] == "Insert" and x["res"]["kind"] == "Inserted" and i < len(c) - 1)
+    # an Insert whose effect a later event on the same object depends on (not one overwritten by a Clone / Adopt)
+    i = next(i for i, x in enumerate(c) if x["ev"] == "Insert" and x["res"]["kind"] == "Inserted" and x["post"]["nv"] >= 2
+             and i + 1 < len(c) and c[i + 1]["ev"] == "Insert" and c[i + 1]["obj"] == x["obj"])
     del c[i]
 demo("Trace_API: remove one Insert event", "Trace_API", case, drop_event)
 def move_vertex(c):
@@ -88,6 +90,15 @@ def other_start(c):
     r = next(r for it in e["res"]["qs"] for r in it["rs"] if r["steps"] >= 2 and not r["scan"])
     r["start"] = r["cell"] if r["cell"] else e["args"]["order"][-1]
 demo("Trace_API+LocateWalk: walk started elsewhere", "Trace_API", case, other_start)
+
+def has_region(e):
+    return e["ev"] == "Conflict" and any(it["kind"] == "Ok" and len(it["cells"]) >= 2 for it in e["res"]["qs"])
+case = first_accepted_case(evs, "Trace_API", has_region)
+def shrink_region(c):
+    e = [x for x in c if has_region(x)][0]
+    it = next(it for it in e["res"]["qs"] if it["kind"] == "Ok" and len(it["cells"]) >= 2)
+    it["cells"].pop()
+demo("Trace_API: conflict region misses a cell", "Trace_API", case, shrink_region)
 
 # ---- Trace_Pure
 evs = drive("predicates", os.path.join(W, "pred.ndjson"), part="0/20")
